@@ -20,3 +20,11 @@ CONFIG = {
                         "floats are not modelled (IEEE addition order is the definition of Sum for floats)"],
     },
 }
+
+# per-property overrides/additions: tools/propcfg.d/Cxx.json (same keys as above)
+import glob as _glob, json as _json, os as _os
+for _f in sorted(_glob.glob(_os.path.join(_os.path.dirname(_os.path.abspath(__file__)), "propcfg.d", "C*.json"))):
+    _pid = _os.path.basename(_f)[:-5]
+    _d = _json.load(open(_f))
+    CONFIG.setdefault(_pid, {}).update(_d)
+    CONFIG[_pid].setdefault("props", ["theories/%s_Props.v" % _pid])
